@@ -278,6 +278,9 @@ func (in *inliner) expandRound() bool {
 		if in.expandFile(f) {
 			in.dirty[f] = true
 			any = true
+		} else if in.promoteLocalCopies(f) {
+			in.dirty[f] = true
+			any = true
 		}
 	}
 	if any {
@@ -362,11 +365,105 @@ func (in *inliner) block(file *ast.File, encl *ast.FuncDecl, n ast.Node) bool {
 				changed = true
 				continue
 			}
+			// f(h(x)) with h a candidate: bind h's result first (the next round inlines the binding)
+			if pre := in.hoistNested(st); len(pre) > 0 {
+				out = append(out, pre...)
+				changed = true
+			}
 			out = append(out, st)
 		}
 		*lp = out
 	}
 	return changed
+}
+
+// hoistNested: for a statement whose main call has a candidate call as a direct argument,
+//
+//	k, err := d.buf.Write(d.chunk(p))   →   h := d.chunk(p); k, err := d.buf.Write(h)
+//
+// provided everything the original evaluates before that argument cannot be changed by it: the
+// receiver path and earlier arguments are plain identifiers of local variables (or field paths used
+// only for their address) and constants.
+func (in *inliner) hoistNested(st ast.Stmt) []ast.Stmt {
+	info := in.pkg.TypesInfo
+	var call *ast.CallExpr
+	switch s := st.(type) {
+	case *ast.ExprStmt:
+		call, _ = s.X.(*ast.CallExpr)
+	case *ast.AssignStmt:
+		if len(s.Rhs) == 1 {
+			call, _ = s.Rhs[0].(*ast.CallExpr)
+		}
+	case *ast.ReturnStmt:
+		if len(s.Results) == 1 {
+			call, _ = s.Results[0].(*ast.CallExpr)
+		}
+	}
+	if call == nil {
+		return nil
+	}
+	stable := func(e ast.Expr) bool {
+		ok := true
+		ast.Inspect(e, func(n ast.Node) bool {
+			switch x := n.(type) {
+			case *ast.Ident, *ast.BasicLit, *ast.ParenExpr:
+			case *ast.SelectorExpr:
+				_ = x
+			default:
+				if n != nil {
+					ok = false
+				}
+			}
+			return true
+		})
+		return ok
+	}
+	if sel, ok := call.Fun.(*ast.SelectorExpr); ok {
+		if !stable(sel.X) {
+			return nil
+		}
+		// a value receiver would be copied before the arguments are evaluated
+		if s := info.Selections[sel]; s != nil {
+			if fn, ok := s.Obj().(*types.Func); ok {
+				if _, ptr := fn.Type().(*types.Signature).Recv().Type().(*types.Pointer); !ptr {
+					return nil
+				}
+			}
+		}
+	} else if _, ok := call.Fun.(*ast.Ident); !ok {
+		return nil
+	}
+	var pre []ast.Stmt
+	for i, a := range call.Args {
+		inner, ok := a.(*ast.CallExpr)
+		if !ok {
+			if !stable(a) {
+				break
+			}
+			// an earlier argument that is a field read could be changed by a later hoisted call
+			if _, isSel := a.(*ast.SelectorExpr); isSel {
+				break
+			}
+			continue
+		}
+		var fn *types.Func
+		switch f := inner.Fun.(type) {
+		case *ast.Ident:
+			fn, _ = info.Uses[f].(*types.Func)
+		case *ast.SelectorExpr:
+			fn, _ = info.Uses[f.Sel].(*types.Func)
+		}
+		if fn == nil || in.cands[fn] == nil || fn.Type().(*types.Signature).Results().Len() != 1 {
+			break
+		}
+		*in.serial++
+		name := fmt.Sprintf("h_x%d", *in.serial)
+		pre = append(pre, &ast.AssignStmt{Lhs: []ast.Expr{ast.NewIdent(name)}, Tok: token.DEFINE, Rhs: []ast.Expr{inner}})
+		call.Args[i] = ast.NewIdent(name)
+		in.counts["nested helper call bound to a temporary"]++
+		break // one per statement and round: later arguments are re-examined next round
+	}
+	return pre
 }
 
 // site: the replacement of statement st when it is an inlinable call of a candidate, else nil.
